@@ -216,6 +216,33 @@ class Fn:
                 else:
                     raise Unsupported("f-string with format spec")
             return "(" + " ++ ".join(parts or ["([] : Text)"]) + ")", "str"
+        if isinstance(e, ast.Subscript) and isinstance(e.value, ast.Call) and isinstance(e.value.func, ast.Name) \
+                and e.value.func.id in ("bin", "oct", "hex") and isinstance(e.slice, ast.Slice) and e.slice.upper is None \
+                and isinstance(e.slice.lower, ast.Constant) and e.slice.lower.value == 2 and e.slice.step is None:
+            # bin(x)[2:] / oct(x)[2:] / hex(x)[2:]: the digits without the prefix (x >= 0; a negative x is out of the subset)
+            c, t = self.expr(e.value.args[0], env, pre)
+            if t != "int":
+                raise Unsupported("bin/oct/hex of non-int")
+            v = self.fresh()
+            pre.append(f"let {v} ← PyT.digitsOfBase {c} {dict(bin=2, oct=8, hex=16)[e.value.func.id]}")
+            return v, "str"
+        if isinstance(e, ast.ListComp) and len(e.generators) == 1 and not e.generators[0].ifs \
+                and isinstance(e.generators[0].target, ast.Name):
+            g = e.generators[0]
+            sub: list[str] = []
+            it, itt = self.expr(g.iter, env, pre)
+            if itt == "str":
+                lst, et = f"(PyT.strIter {it})", "str"
+            elif isinstance(itt, tuple) and itt[0] == "list":
+                lst, et = it, itt[1]
+            else:
+                raise Unsupported("comprehension over " + str(itt))
+            env2 = dict(env)
+            env2[g.target.id] = et
+            body, bt2 = self.expr(e.elt, env2, sub)
+            if sub:
+                raise Unsupported("comprehension element that can raise")
+            return f"(({lst}).map (fun ({lname(g.target.id)} : {lean_type(et)}) => {body}))", ("list", bt2)
         if isinstance(e, ast.Subscript):
             base, bt = self.expr(e.value, env, pre)
             if isinstance(e.slice, ast.Slice):
@@ -312,8 +339,21 @@ class Fn:
                 pre.append(f"let {v} ← {code}")
                 return v, rett
             return code, rett
+        if isinstance(f, ast.Attribute) and f.attr == "join" and isinstance(f.value, ast.Constant) and len(e.args) == 1:
+            c, t = self.expr(e.args[0], env, pre)
+            if t != ("list", "str"):
+                raise Unsupported("join over " + str(t))
+            return (f"(PyT.joinEmpty {c})" if f.value.value == "" else f"(PyT.join {text_lit(f.value.value)} {c})"), "str"
         if isinstance(f, ast.Attribute):
             base, bt = self.expr(f.value, env, pre)
+            if bt == "int" and f.attr == "bit_length" and not e.args:
+                return f"(PyT.bitLength {base})", "int"
+            if bt == "str" and f.attr == "rjust" and len(e.args) == 2 and isinstance(e.args[1], ast.Constant) \
+                    and isinstance(e.args[1].value, str) and len(e.args[1].value) == 1:
+                w, wt = self.expr(e.args[0], env, pre)
+                return f"(PyT.rjust {base} {w} {char_lit(e.args[1].value)})", "str"
+            if bt == "str" and f.attr == "upper" and not e.args:
+                return f"(PyT.upperAscii {base})", "str"
             if isinstance(bt, tuple) and bt[0] == "match" and f.attr == "group":
                 k = e.args[0].value
                 n = bt[1]
@@ -323,6 +363,17 @@ class Fn:
         if not isinstance(f, ast.Name):
             raise Unsupported("computed callee")
         fn = f.id
+        if fn == "int" and len(e.args) == 2 and isinstance(e.args[1], ast.Constant) and isinstance(e.args[1].value, int):
+            c, t = self.expr(e.args[0], env, pre)
+            if t != "str":
+                raise Unsupported("int(x, base) of " + str(t))
+            v = self.fresh()
+            pre.append(f"let {v} ← PyT.intOfBase {c} {e.args[1].value}")
+            return v, "int"
+        if fn in ("max", "min") and len(e.args) == 1 and isinstance(e.args[0], ast.List) and len(e.args[0].elts) == 2:
+            a, _ = self.expr(e.args[0].elts[0], env, pre)
+            b, _ = self.expr(e.args[0].elts[1], env, pre)
+            return f"(PyT.{fn}I {a} {b})", "int"
         if fn == "int" and len(e.args) == 1:
             a = e.args[0]
             if isinstance(a, ast.BinOp) and isinstance(a.op, ast.Div):
@@ -758,6 +809,11 @@ TARGETS = [
      "assume": "a sheet/table is its (identity, name) pair; type(key).__name__ (message text only) is not modelled"},
     {"group": "NumFmt", "module": "numbers_parser.cell", "qualname": "_format_fraction_parts_to", "lean": "format_fraction_parts_to",
      "params": [("whole", "int"), ("numerator", "int"), ("denominator", "int")], "ret": "str"},
+    {"group": "NumFmt", "module": "numbers_parser.cell", "qualname": "_invert_bit_str", "lean": "invert_bit_str",
+     "params": [("value", "str")], "ret": "str"},
+    {"group": "NumFmt", "module": "numbers_parser.cell", "qualname": "_twos_complement", "lean": "twos_complement",
+     "params": [("value", "int"), ("base", "int")], "ret": "str",
+     "assume": "bin/oct/hex(x)[2:] are the base-2/8/16 digits of x >= 0 (lower case), str.upper on them is ASCII upper-casing"},
 ]
 
 
